@@ -4,6 +4,7 @@ the context and plainly."""
 import itertools
 import random
 from engine import *
+from common import Raw
 import c01
 
 
@@ -54,10 +55,34 @@ def generate(tier, seed):
                         cases.append(case("eng", sp, adapter_M(lines2), "-", steps2))
                         dist["malformed_rule"] = dist.get("malformed_rule", 0) + 1
             dist["%s/%s" % (name, k)] = n
+    # the kinds whose matcher EVALUATES a stored rule text (eval(p.sub_rule)): the suffixed copy of such a policy stores the text
+    # over the suffixed names (r2.sub.Age > 18 under p2 where p holds r.sub.Age > 18); both entry points rewrite the dotted
+    # names of the evaluated text before evaluating it, so the copy relation extends to these rules
+    def ren(v, k):
+        if isinstance(v, Raw):
+            return Raw(v.replace("(var,r,", "(var,r%s," % k).replace("(var,p,", "(var,p%s," % k))
+        return v
+    for name, d in K.items():
+        if not d.get("eval"):
+            continue
+        for k in ("2", "3"):
+            copies = ("", "2") if k == "2" else ("", "2", "3")
+            sp = spec_of(d, copies)
+            reqs = c01.requests_for(d, rnd)
+            n = 0
+            for rs, ls, ex in c01.configs_for(d, rnd, per_kind, 2, 2):
+                lines = [["p", "p"] + r for r in rs] + [["p", "p" + k] + [ren(x, k) for x in r] for r in rs] + [["g", gk] + l for gk, l in ls]
+                steps = []
+                for r in reqs:
+                    steps.append(Q_ec(k, r))
+                    steps.append(Q_e(r))
+                cases.append(case("eng", sp, adapter_M(lines), "-", steps))
+                n += 1
+            dist["%s/%s" % (name, k)] = n
     return {
         "cases": cases,
         "exhaustive": False,
-        "rule": ("every model kind of the C01 family (all four effect rules; eval excluded) with its r/p/e/m definitions copied under suffix 2 (and 3), "
+        "rule": ("every model kind of the C01 family (all four effect rules; the eval kinds with the evaluated rule text renamed to the suffixed names) with its r/p/e/m definitions copied under suffix 2 (and 3), "
                  "policies of <= 2 rules (incl. allow/deny/other effect values) stored under both the plain and the suffixed policy type, <= 2 role links; "
                  "every request of the cross product + wrong arities + typed values issued through enforce_with_context(k) and enforce. "
                  "non-trivial = both a grant and a denial occur"),
